@@ -1,4 +1,5 @@
 //! Shared simulators.
 pub mod driver;
 pub mod hostile;
+pub mod net;
 pub mod world;
